@@ -41,6 +41,13 @@ pub fn rerun(line: &str) -> Option<String> {
             let o = crate::common::Opts { ecl: optn(e), mode: optn(m), version: optn(v), mask: optn(k) };
             Some(crate::gen::term_line(&unhex(hx), o))
         }
+        ["svg", hx, e, m, v, k, ops] => {
+            let o = crate::common::Opts { ecl: optn(e), mode: optn(m), version: optn(v), mask: optn(k) };
+            Some(crate::gen::svg_line(&unhex(hx), o, &crate::svgops::parse(ops)?))
+        }
+        ["wasm", hx, ops] => Some(crate::wasmops::wasm_line(
+            &String::from_utf8(unhex(hx)).ok()?, &crate::wasmops::parse(ops)?)),
+        ["wasmqr", hx] => Some(crate::wasmops::wasmqr_line(&String::from_utf8(unhex(hx)).ok()?)),
         ["classify", hx] => Some(crate::gen::classify_line(&unhex(hx))),
         _ => None,
     }
